@@ -112,7 +112,7 @@ impl SourceMapHermes {
         // https://github.com/facebook/metro/blob/f2d80cebe66d3c64742f67259f41da26e83a0d8d/packages/metro/src/Server/symbolicate.js#L58-L60
         let (_mapping_idx, mapping) = greatest_lower_bound(
             &function_map.mappings,
-            &(token.get_src_line() + 1, token.get_src_col()),
+            &(token.get_src_line().checked_add(1)?, token.get_src_col()),
             |o| (o.line, o.column),
         )?;
         function_map
